@@ -28,6 +28,20 @@ Spec == Init /\ [][Next]_done
 
 Emit == \A x \in Grid : PrintT(<<"CASE", ToJson(x)>>)
 
+(* exact fits: HTTP announce replies that fill the response buffer to the last byte.  The body length   *)
+(* moves in steps of 6 / 18 bytes with the number of peers, and by single bytes with the number of       *)
+(* digits of `peer_announce_interval` (a configuration value) - so for each family the largest swarm    *)
+(* for which SOME interval makes header + body + CRLF = HttpSendBuf is a reply that must be delivered   *)
+(* ("fits" is <=, not <)                                                                                 *)
+Intervals == {1, 10, 120, 1000, 10000, 100000, 1000000, 10000000}
+ExactFits(f) == {[fam |-> f, n |-> n, interval |-> iv, replylen |-> HttpSendBuf] :
+                    n \in 1..700, iv \in Intervals}
+ExactOK(x) == HttpReplyLen(HttpAnnounceBody(x.fam, x.n, 0, x.n, x.interval)) = HttpSendBuf
+BestExact(f) == LET S == {x \in ExactFits(f) : ExactOK(x)}
+                IN {x \in S : \A y \in S : y.n <= x.n}
+EmitExact == \A f \in {4, 6} : \A x \in BestExact(f) : PrintT(<<"EXACT", ToJson(x)>>)
+ExactExists == \A f \in {4, 6} : BestExact(f) # {}
+
 (* C18 as a statement about the mirrored constants: every accepted configuration's worst request is *)
 (* delivered.  Expected to be FALSE on the pinned tree (known findings); evaluated, not asserted.    *)
 Overflowing == {x \in Grid : ~x.delivered}
